@@ -39,6 +39,7 @@ def main():
     ap.add_argument("--all", action="store_true")
     ap.add_argument("--skip-tests", action="store_true")
     ap.add_argument("--tier", default="quick")
+    ap.add_argument("--merge", action="store_true", help="keep the recorded results of checks that are not re-run now")
     a = ap.parse_args()
     dst = os.path.join(ROOT, "benign", a.bid)
     os.makedirs(dst, exist_ok=True)
@@ -64,6 +65,12 @@ def main():
     wt = tempfile.mkdtemp(prefix="benwt.", dir="/tmp")
     os.rmdir(wt)
     meta = {"id": a.bid, "touched": touched, "checks": checks, "ran": []}
+    old = None
+    if a.merge and os.path.exists(os.path.join(dst, "meta.json")):
+        try:
+            old = json.load(open(os.path.join(dst, "meta.json")))
+        except Exception:  # noqa
+            old = None
     try:
         r = sh(["git", "-C", "/repo", "worktree", "add", "--detach", "-f", wt, "HEAD"])
         assert r.returncode == 0, r.stderr
@@ -86,6 +93,16 @@ def main():
                 kinds = [l.strip()[:400] for l in r.stdout.splitlines() if l.startswith("  kind=")]
                 meta["ran"].append({"check": c, "exit": r.returncode, "first_kinds": kinds[:3],
                                     "summary": (r.stdout.strip().splitlines()[-1:] or [r.stderr[-400:]])[0][:300]})
+        if old and meta.get("patch_applies"):
+            # results of an earlier run (older version of the checks) stay on record for the checks not re-run now
+            rerun = {x["check"] for x in meta["ran"]}
+            for x in meta["ran"]:
+                x["rerun_with_final_checks"] = True
+            meta["ran"] += [x for x in old.get("ran", []) if x["check"] not in rerun]
+            meta["checks"] = [x["check"] for x in meta["ran"]]
+            for k in ("tests_tail", "tests_green"):
+                if k in old and k not in meta:
+                    meta[k] = old[k]
         meta["alarms"] = [x["check"] for x in meta["ran"] if x["exit"] != 0]
     finally:
         sh(["git", "-C", "/repo", "worktree", "remove", "--force", wt])
